@@ -172,7 +172,7 @@ class Case:
                     pairs.append((ta[0], tb[0], ix))
         return pairs
 
-    def observe(self, name, opts, fn, extra=None, tn_attr=True):
+    def observe(self, name, opts, fn, extra=None, tn_attr=True, reject_ok=False):
         tn0 = self.tn
         rec = {"ev": "rewrite", "tid": self.tid, "seq": len(self.recs), "name": name, "opts": opts, "exc": "", "ongrid": True,
                "result": [], "outer_after": list(self.out), "claims_ok": [], "geom": self.geom}
@@ -212,6 +212,12 @@ class Case:
                 rec.update(extra(tn0, tn))
             self.tn = tn
         except Exception as ex:  # noqa
+            if reject_ok:
+                # the operation is documented to need more than this input offers (e.g. invertible gauges on a
+                # rank-deficient bond): a loud refusal, not an observation of the property
+                self.rejected = getattr(self, "rejected", 0) + 1
+                self.dead = True
+                return
             rec["exc"] = type(ex).__name__
             import traceback
             rec["excmsg"] = (str(ex)[:200] + " @ " + " < ".join("%s:%d" % (f.name, f.lineno) for f in traceback.extract_tb(ex.__traceback__)[-4:]))[:400]
@@ -241,11 +247,15 @@ class Case:
                     "compress_between", "compress_all", "expand_bond", "t_canonize_bond", "t_compress_bond", "t_balance_bond",
                     "t_make_single_bond", "t_fuse_squeeze", "strip_exponent", "distribute_exponent", "canonize_between", "compress_all_tree",
                     "isometrize_form", "gauge_all", "squeeze_fuse", "flip", "hyperinds_resolve"]
-        if self.gauges is not None:
+        if self.geom == "hyperout" and len(self.recs) == 1:
+            menu = ["pair_simplify", "full_simplify_P", "full_simplify_P"]
+        elif self.gauges is not None:
             # a gauged network: only the operations that take (and maintain) the gauges
             menu = ["g_fuse_squeeze", "g_make_single", "g_fuse_multibonds", "g_insert", "g_fuse_squeeze", "g_squeeze_keep"]
         elif not hyper_now and r.random() < 0.06:
             menu = ["g_all_simple"]
+        if self.geom == "hyperout" and len(self.recs) == 1:
+            menu = ["pair_simplify", "full_simplify_P", "full_simplify_P"]
         op = r.choice(menu)
         if (tn.num_tensors < 2 or not any(len(tids) == 2 for tids in tn.ind_map.values())) and \
                 op.startswith(("gauge", "canonize", "balance", "compress", "g_")):
@@ -480,7 +490,7 @@ class Case:
                 t.gauge_all_simple_(max_iterations=r.choice([1, 3]), gauges=g)
                 return t
             self.gauges = g
-            self.observe("gauge_all_simple_(gauges)", {}, f)
+            self.observe("gauge_all_simple_(gauges)", {}, f, reject_ok=True)
         elif op == "isometrize_form":
             # (isometrize changes the value on purpose: only the promised form is observed, on a scratch copy)
             return
